@@ -602,7 +602,13 @@ impl Display for Literal {
                 }
             },
             Literal::Range(min, max, num_ty) => {
-                write!(f, "{min}{num_ty}..{max}{num_ty}")
+                // (the exclusive end can be one above the largest number of the type, which has
+                // no spelling with a suffix: the type of the first bound is the type of both)
+                if num_ty.max().is_some_and(|ty_max| *max > ty_max) {
+                    write!(f, "{min}{num_ty}..{max}")
+                } else {
+                    write!(f, "{min}{num_ty}..{max}{num_ty}")
+                }
             }
         }
     }
@@ -661,7 +667,20 @@ impl TypedExpr {
                 };
                 Literal::Enum(name, variant_name.clone(), variant)
             }
-            ExprEnum::Range(min, max, num_ty) => Literal::Range(min, max, num_ty),
+            ExprEnum::Range(min, max, num_ty) => match ty {
+                // a range literal has unsigned bounds, as an array of signed numbers it is the
+                // array of its elements (the printed form must be a value of the same type again):
+                Type::Array(elem_ty, _) | Type::ArrayConst(elem_ty, _)
+                    if matches!(elem_ty.as_ref(), Type::Signed(_)) =>
+                {
+                    let Type::Signed(elem_ty) = *elem_ty else {
+                        unreachable!("checked by the guard")
+                    };
+                    let elems = (min..max).map(|n| Literal::NumSigned(n as i64, elem_ty));
+                    Literal::Array(elems.collect())
+                }
+                _ => Literal::Range(min, max, num_ty),
+            },
             _ => unreachable!("This should result in a literal parse error instead"),
         }
     }
